@@ -455,3 +455,63 @@ class ValidateNonEmptyObject(Contract):
 
 
 CONTRACTS.append(ValidateNonEmptyObject())
+
+
+# ---- objects follow their interfaces (per interface field)
+from .c12 import Compat, GqlTypeWf, field_entry_wf, AllFieldEntries        # noqa: E402
+
+ArgsFollow = z3.Function('FieldArgumentsFollowInterface', V, V, BoolS)     # _validated_field_args_are_same_as_interface_args reports nothing (own subject)
+
+
+def _args_model(en, st, a, kw):
+    of, iff, errs = en.read(a[1], st), en.read(a[3], st), a[4]
+    cur = en.read(errs, st)
+    more = fresh('argument_errors', VL)
+    ok = en.fork(st, ArgsFollow(of, iff))
+    bad = en.fork(st, z3.Not(ArgsFollow(of, iff)))
+    out = []
+    if ok is not None:
+        out.append((ok, V.None_))
+    if bad is not None:
+        out.append((en.mutate(errs, bad.assume(z3.Not(VL.is_nil(more))), V.List(app(V.items(cur), more))), V.None_))
+    return out
+
+
+def field_follows(s, object_type, iface_field):
+    of = lookup(V.ditems(attr0(object_type, 'implemented_fields')), attr0(iface_field, 'name'))
+    return z3.And(of != V.Missing, Compat(s, attr0(of, 'gql_type'), attr0(iface_field, 'gql_type')), ArgsFollow(of, iface_field))
+
+
+class ValidateFieldFollowsInterface(Contract):
+    """_validate_field_follow_interface: an error is added exactly when the object type lacks the interface's field, declares it with a type that
+    does not honour the interface field's type, or its arguments do not follow; the error list only grows"""
+    key = S_ + '_validate_field_follow_interface'
+    property_ids = ('C12',)
+    params = ['self', 'iface_name', 'object_type', 'iface_field', 'errors']
+    self_class = 'GraphQLSchema'
+    mutable = {'errors': 'list'}
+    callee_models = {'tartiflette/schema/schema.py::_validated_field_args_are_same_as_interface_args': _args_model}
+
+    def pre(self, A, st):
+        s, ot, iff = A['self'], A['object_type'], A['iface_field']
+        ift = attr0(iff, 'gql_type')
+        iface = lookup(V.ditems(attr0(s, 'type_definitions')), ift)
+        return [('schema', z3.And(exact(s, 'GraphQLSchema'), V.oref(s) >= 0, V.is_Dict(attr0(s, 'type_definitions')))),
+                ('object_type', z3.And(exact(ot, 'GraphQLObjectType'), V.oref(ot) >= 0, V.is_Str(attr0(ot, 'name')), V.is_Dict(attr0(ot, 'implemented_fields')),
+                                       AllFieldEntries(V.ditems(attr0(ot, 'implemented_fields'))))),
+                ('interface_field', z3.And(exact(iff, 'GraphQLField'), V.oref(iff) >= 0, V.is_Str(attr0(iff, 'name')), GqlTypeWf(ift))),
+                ('interface_field_type_defined', z3.Implies(V.is_Str(ift), z3.And(iface != V.Missing, inst(iface, 'GraphQLType'), V.oref(iface) >= 0))),
+                ('errors', V.is_List(st.heap[A['errors'].loc]))]
+
+    def post(self, A, st0, out):
+        if out.kind == 'raise':
+            return never_raises(out)
+        before = V.items(st0.heap[A['errors'].loc])
+        after = V.items(out.st.heap[A['errors'].loc])
+        follows = field_follows(A['self'], A['object_type'], A['iface_field'])
+        return [('errors_only_grow', length(after) >= length(before)),
+                ('reports_iff_the_field_does_not_follow', (length(after) == length(before)) == follows)]
+
+
+CONTRACTS.append(ValidateFieldFollowsInterface())
+
